@@ -6,6 +6,7 @@ import Yv.Cert.Canon
 import Yv.Cert.CompleteX
 import Yv.Cert.LAOracle
 import Yv.Model.PackA
+import Yv.Model.Views
 import Yv.Model.Drive
 import Yv.Model.XDrv
 import Yv.Model.Visitor
@@ -18,6 +19,19 @@ open Core
 
 def ints (xs : List Int) : String := " ".intercalate (xs.map toString)
 def nats (xs : List Nat) : String := " ".intercalate (xs.map toString)
+
+def hexEncode (s : String) : String :=
+  let hd (n : Nat) : Char := if n < 10 then Char.ofNat (48 + n) else Char.ofNat (87 + n)
+  String.ofList (s.toUTF8.toList.flatMap fun b => [hd (b.toNat / 16), hd (b.toNat % 16)])
+
+def hexVal (c : Char) : Nat :=
+  if c.isDigit then c.toNat - '0'.toNat else if 'a' ≤ c && c ≤ 'f' then c.toNat - 'a'.toNat + 10 else 0
+
+def hexDecode (s : String) : ByteArray :=
+  let rec go : List Char → ByteArray → ByteArray
+    | a :: b :: rest, acc => go rest (acc.push (UInt8.ofNat (hexVal a * 16 + hexVal b)))
+    | _, acc => acc
+  go s.toList ByteArray.empty
 
 structure CaseAcc where
   id : String := ""
@@ -42,6 +56,8 @@ structure CaseAcc where
   iGDef : List Int := []
   inputs : Array (List Nat) := #[]
   codes : Option (Int × Int) := none
+  wantDot : Bool := false
+  dnames : Array String := #[]
 
 def parseItem (s : String) : Item :=
   match s.splitOn "." with
@@ -158,6 +174,14 @@ def process (out : IO.FS.Stream) (a : CaseAcc) : IO Unit := do
     match bad with
     | none => out.putStrLn "V packLookup ok"
     | some (q, x) => out.putStrLn s!"V packLookup FAIL {q} {x}"
+  -- the DOT view of the verified views model (C18_views) on the implementation's automaton and table
+  if a.wantDot then
+    let names : Nat → String := fun i => a.dnames.getD i "?"
+    let d := Y.dotView names yg ya rows
+    for nd in d.nodes do
+      out.putStrLn s!"M HDOTNODE state_{nd.state} {if nd.filled then 1 else 0} {hexEncode (Y.nodeLabel nd)}"
+    for e in d.edges do
+      out.putStrLn s!"M HDOTEDGE state_{e.src} state_{e.dst} {hexEncode ("\"" ++ e.label ++ "\"")}"
   -- R: the driver model run on the implementation's dense table
   -- the action constants are the ones the implementation will emit (CODES line); on a certified
   -- table they are `errCode n` / `accCode n` and P is exactly `dparams` (checked as V codes)
@@ -254,15 +278,6 @@ def processX (out : IO.FS.Stream) (x : XAcc) : IO Unit := do
     out.putStrLn (s!"XR {i} {v} {c.req} {xField val x.startTag} " ++ nats log)
     if x.wantTrace then out.putStrLn (s!"XT {i} " ++ " ".intercalate (c.trace.reverse.map evStrD))
   out.putStrLn "XEND"
-
-def hexVal (c : Char) : Nat :=
-  if c.isDigit then c.toNat - '0'.toNat else if 'a' ≤ c && c ≤ 'f' then c.toNat - 'a'.toNat + 10 else 0
-
-def hexDecode (s : String) : ByteArray :=
-  let rec go : List Char → ByteArray → ByteArray
-    | a :: b :: rest, acc => go rest (acc.push (UInt8.ofNat (hexVal a * 16 + hexVal b)))
-    | _, acc => acc
-  go s.toList ByteArray.empty
 
 def quoteAscii (s : String) : String :=
   let body := s.toList.foldl (fun acc c =>
@@ -387,6 +402,12 @@ partial def loop (inp out : IO.FS.Stream) (a : CaseAcc) (x : XAcc := {}) : IO Un
   | "GDEF" :: xs => loop inp out { a with iGDef := xs.map String.toInt! }
   | "INPUT" :: xs => loop inp out { a with inputs := a.inputs.push (xs.map String.toNat!) }
   | "CODES" :: e :: c :: _ => loop inp out { a with codes := some (e.toInt!, c.toInt!) }
+  | "WANTDOT" :: _ => loop inp out { a with wantDot := true }
+  | "DNAME" :: i :: rest =>
+    let nm := match String.fromUTF8? (hexDecode (rest.headD "")) with | some x => x | none => "?"
+    let idx := i.toNat!
+    let arr := if a.dnames.size ≤ idx then a.dnames ++ Array.replicate (idx + 1 - a.dnames.size) "" else a.dnames
+    loop inp out { a with dnames := arr.set! idx nm }
   | "ENDCASE" :: _ => do process out a; loop inp out {}
   | _ => loop inp out a
 
